@@ -226,7 +226,7 @@ func checkAxiosShape(w *World, r *Result) {
 			id := identOf(as.Lhs[0])
 			// used as first verb argument of the template Sprintf
 			ast.Inspect(gm.Decl.Body, func(y ast.Node) bool {
-				if call, ok := y.(*ast.CallExpr); ok && isSprintf(ginfo, &call) && len(call.Args) >= 2 {
+				if call := sprintfView(ginfo, y); call != nil && len(call.Args) >= 2 {
 					if a := identOf(call.Args[1]); a != nil && id != nil && a.Name == id.Name {
 						nameOK = true
 					}
@@ -354,8 +354,8 @@ func axiosBodyArg(info *types.Info, body *ast.BlockStmt) string {
 		if !ok || len(ret.Results) != 1 {
 			return true
 		}
-		call, ok := ret.Results[0].(*ast.CallExpr)
-		if !ok || !isSprintf(info, &call) {
+		call := sprintfView(info, ret.Results[0])
+		if call == nil {
 			return true
 		}
 		tv := info.Types[call.Args[0]]
@@ -569,7 +569,7 @@ func checkQueryConverters(w *World, r *Result) {
 		cl := c.(*ast.CaseClause)
 		for _, e := range cl.List {
 			ast.Inspect(&ast.BlockStmt{List: cl.Body}, func(x ast.Node) bool {
-				if call, ok := x.(*ast.CallExpr); ok && isSprintf(info, &call) {
+				if call := sprintfView(info, x); call != nil {
 					f, _ := verbArgs(info, call)
 					formats[es(e)] = f
 				}
